@@ -347,6 +347,10 @@ WHAT = {
     'C08:basex:wrong-shape-basis-kept-in-memory': 'basex: a wrong-shape loaded basis is kept in the memory cache; calls keep raising after the file is removed',
     'C08:daun:wrong-shape-basis-kept-in-memory': 'daun: a wrong-shape loaded basis is kept in the memory cache; calls keep raising after the file is removed',
     'C08:rbasex:wrong-shape-basis-kept-in-memory': 'rbasex: a wrong-shape loaded basis is kept in the memory cache; calls keep raising after the file is removed',
+    'C08:basex:wrong-shape-file-cropped-and-used': 'basex: a valid .npy smaller than its name promises, but larger than the request, is cropped and used',
+    'C08:daun:wrong-shape-file-cropped-and-used': 'daun: a valid .npy smaller than its name promises, but larger than the request, is cropped and used',
+    'C08:dasch:wrong-shape-file-cropped-and-used': 'dasch: a valid .npy smaller than its name promises, but larger than the request, is cropped and used',
+    'C08:rbasex:wrong-shape-file-cropped-and-used': 'rbasex: a valid .npy smaller than its name promises, but larger than the request, is cropped and used',
 }
 
 
@@ -379,6 +383,11 @@ def directed(mod, rng):
     for kind in ('empty', 'trunc', 'zip', 'garbage', 'shape'):
         S.append([('call', other), ('seed', 1, key, kind), ('call', call), ('remove', 1, key), ('call', call)])
         S.append([('seed', 1, key, kind), ('call', call), ('call', call)])
+    # a wrong-shape file whose NAME promises more than the request needs: cropped and used?
+    big = {'basex': (14, 0), 'daun': (14, call.get('degree', 0)), 'dasch': (call.get('meth', 0), 14),
+           'rbasex': (6, 4, 0, 1)}.get(mod)
+    if big is not None:
+        S.append([('seed', 1, big, 'shape'), ('call', call)])
     return S
 
 
